@@ -87,6 +87,7 @@ struct View {
     last: u64,
     in_stale: bool,
     in_corrupt: bool,
+    in_meta_branch: bool,
 }
 struct Ctl {
     mu: Mutex<Vec<View>>,
@@ -245,6 +246,21 @@ impl Actor {
         self.note(alive as u64);
         alive
     }
+    /// client, meta.json branch: liveness of the meta pid (same real function, different model pc)
+    fn live_m(&mut self, p: u64) -> bool {
+        self.ctl.set(self.id, |v| v.in_meta_branch = true);
+        let l = ripd::pid_liveness(p as u32);
+        self.ctl.set(self.id, |v| v.in_meta_branch = false);
+        let alive = !matches!(l, PidLiveness::Dead);
+        self.note(alive as u64);
+        alive
+    }
+    fn lock_exists_m(&mut self) -> bool {
+        park("drv.lock_exists_m");
+        let b = ripd::authority_lock_path(&self.data).exists();
+        self.note(b as u64);
+        b
+    }
     fn ping(&mut self) -> bool {
         park("drv.ping");
         let b = self.oracle().0 & 1 == 1;
@@ -340,8 +356,13 @@ impl Actor {
                 if self.ping() {
                     return;
                 }
-                if !self.live(meta - 2) && self.stale(meta - 2) {
-                    continue;
+                if !self.live_m(meta - 2) {
+                    if self.lock_exists_m() {
+                        if self.stale(meta - 2) {
+                            continue;
+                        }
+                    }
+                    // else: spawn_local_authority (another contender), continue == fall through to the deadline test
                 }
             } else if self.lock_exists() {
                 let l = self.read_lock();
@@ -409,9 +430,12 @@ fn pc_code(v: &View) -> u64 {
                 }
             }
             "drv.lock_exists" => 10,
+            "drv.lock_exists_m" => 25,
             "auth.liveness" => {
                 if v.in_corrupt {
                     23
+                } else if v.in_meta_branch {
+                    24
                 } else {
                     11
                 }
@@ -992,8 +1016,19 @@ fn main() {
             d => d,
         };
         let c = Case { lock: LockF::Rec(dead), meta: MetaF::Rec(dead), bystander: None, cont: vec![Contender { pid: me, drv }], assume_grace: true, real_pids: true };
+        // pid_max is small on this box and every builder spawns threads: if the reaped pid has been handed out again
+        // (before or during the run) the case says nothing about rip — skip it instead of alarming
+        let is_dead = |p: u64| matches!(ripd::pid_liveness(p as u32), PidLiveness::Dead);
+        if !is_dead(dead) {
+            res.notes.push(format!("real_pid: reaped pid {dead} already reused, case skipped"));
+            continue;
+        }
         let mut pol = |_p: usize, st: &[usize], _: &[u64]| Some(Ev::Step(st[0], 0));
         let o = run_case(&c, &mut pol, 40);
+        if !is_dead(dead) {
+            res.notes.push(format!("real_pid: reaped pid {dead} reused during the run, case skipped"));
+            continue;
+        }
         record(&mut res, &mut w, "real_pid", &c, o, false);
     }
     // 3. all 2-contender interleavings of the scripts over every leftover state
@@ -1071,7 +1106,8 @@ fn main() {
         let c = Case { lock: LockF::Absent, meta: meta.clone(), bystander: None, cont: vec![Contender { pid: 101, drv: Drv::Client }], assume_grace: true, real_pids: false };
         let mut pol = |_p: usize, _st: &[usize], _pcs: &[u64]| Some(Ev::Step(0, 0));
         let o = run_case(&c, &mut pol, 40);
-        let reached_spawn_branch = o.pcs_seen.contains(&10);
+        // pc 10 = lock-exists test of the no-meta branch, pc 25 = the same test in the meta branch (fix S24): with no lock both spawn
+        let reached_spawn_branch = o.pcs_seen.contains(&10) || o.pcs_seen.contains(&25);
         let finished = o.events.len() < 40;
         let events = o.events.clone();
         record(&mut res, &mut w, "recover_solo_client", &c, o, false);
